@@ -954,6 +954,9 @@ def _yaml_dq(s, rng, canonical=False):
                 out.append(ch)
         elif cp in _YAML_NAMED and (canonical or rng.random() < 0.7):
             out.append(_YAML_NAMED[cp])
+        elif cp == 0xFEFF and not canonical and rng.random() < 0.5:
+            # a literal byte order mark is allowed inside a double-quoted scalar (nb-json), not at its very start
+            out.append(ch if len(out) > 1 else _yaml_num_escape(cp, rng))
         else:
             out.append(_yaml_num_escape(cp, rng))
     out.append('"')
